@@ -310,6 +310,9 @@ func cmdSelftest() int {
 	if !simpSelfcheck(ts) {
 		return 2
 	}
+	if !simpFuzz(60000, 1) {
+		return 2
+	}
 	fmt.Println("selftest ok")
 	return 0
 }
